@@ -16,6 +16,7 @@ int rng_pick(rng_t *r, const int *v, int n);
 /* edge-biased dimension in [1,maxd] */
 int gen_dim(rng_t *r, int maxd);
 extern int GEN_MINDIM; /* when > 0, dimensions below it are folded into [GEN_MINDIM, maxd] */
+extern int GEN_WIDE;   /* when set (and maxd > 600): dimensions are either <= 100 or > 512 */
 /* dimension from special list (filtered to [1,maxd]) with probability 1/2, else gen_dim */
 int gen_dim_sp(rng_t *r, const int *sp, int nsp, int maxd);
 
